@@ -44,6 +44,12 @@ def runner(v):
     return xyzpy.Runner(functools.partial(fn_version, v), var_names="out", fn_args=("a", "b"))
 
 
+def label_id(x):
+    """integer image of a coordinate value: n for the integer n, 1000 + 10 x for a value such as 2.5"""
+    x = float(x)
+    return int(x) if x.is_integer() else 1000 + int(round(10 * x))
+
+
 def canon_ds(ds, var="out", varid=None):
     """Dataset -> sorted [[point, value]] over non-null cells (of one variable)."""
     VAR = 100 if varid is None else varid
@@ -62,7 +68,7 @@ def canon_ds(ds, var="out", varid=None):
         x = float(x)
         if np.isnan(x):
             continue
-        labels = {d: int(ds[d].values[i]) for d, i in zip(dims, it.multi_index)}
+        labels = {d: label_id(ds[d].values[i]) for d, i in zip(dims, it.multi_index)}
         pt = [VAR]
         for d, did in (("a", DA), ("b", DB), ("c", 3)):
             if d in labels:
@@ -393,6 +399,9 @@ def two_variable_stream(c, tmp, n, pairs, metas):
         for k in range(rng.randint(2, 5)):
             which = rng.choice(["both", "both", "out", "aux"])
             a = sorted(rng.sample(range(1, 5), rng.randint(1, 2)))
+            if k > 0 and rng.random() < 0.25:
+                a = sorted(a + [2.5])          # a coordinate value that is not an integer: the (integer) coordinate
+                                               # of the file becomes float
             b = sorted(rng.sample(range(5, 8), rng.randint(1, 2)))
             pol = rng.choice([None, None, True, False])
             fresh = rng.random() < 0.4
@@ -417,7 +426,7 @@ def two_variable_stream(c, tmp, n, pairs, metas):
             p_ = xyzpy.manage.auto_add_extension(path, engine)
             fds = xyzpy.load_ds(path, engine=engine) if os.path.exists(p_) else None
             for v, vid in VARS.items():
-                pts = sorted([[vid, DA, x, DB, y], fn_two(x, y)[0 if v == "out" else 1]] for x in a for y in b) \
+                pts = sorted([[vid, DA, label_id(x), DB, y], int(fn_two(x, y)[0 if v == "out" else 1])] for x in a for y in b) \
                     if which in ("both", v) else []
                 for kpt, val in pts:
                     want[v][tuple(kpt)] = val
